@@ -41,17 +41,22 @@ def stageIndex (ind stage k npartitions nfinal : Nat) (hashing : Bool) : Nat :=
 
 abbrev Row := Nat × Nat   -- (`_partitions` value, row id)
 
+/-! The frame-level functions are polymorphic in the payload `α` of a row `(target, payload)`: the shuffle only
+    ever reads the `_partitions` value. The driver instantiates `α := Nat` (row ids), the sort / de-duplication
+    models `α :=` (key, id). -/
+variable {α : Type}
+
 /-- piece `j` of `shuffle_group(df, "_partitions", stage, k, npartitions, …)` -/
-def shuffleGroup (k stage npartitions : Nat) (rows : List Row) (j : Nat) : List Row :=
+def shuffleGroup (k stage npartitions : Nat) (rows : List (Nat × α)) (j : Nat) : List (Nat × α) :=
   rows.filter fun r => stageIndex r.1 stage k npartitions 0 false == j
 
 /-- `SimpleShuffle._layer`: output `p` concatenates piece `p` of every input partition -/
-def simpleShuffle (parts : List (List Row)) (nOut : Nat) : List (List Row) :=
+def simpleShuffle (parts : List (List (Nat × α))) (nOut : Nat) : List (List (Nat × α)) :=
   (List.range nOut).map fun p => parts.flatMap fun rows => shuffleGroup nOut 0 nOut rows p
 
 /-- one stage of `TaskShuffle._layer` over all `k^stages` positions; positions beyond the input count
     read an empty frame -/
-def stageStep (k stages s nIn : Nat) (parts : List (List Row)) : List (List Row) :=
+def stageStep (k stages s nIn : Nat) (parts : List (List (Nat × α))) : List (List (Nat × α)) :=
   (List.range (k ^ stages)).map fun part =>
     let out := digits part stages k
     (List.range k).flatMap fun i =>
@@ -59,7 +64,7 @@ def stageStep (k stages s nIn : Nat) (parts : List (List Row)) : List (List Row)
 
 /-- `TaskShuffle._layer` in the staged case (`k = nsplits`, `stages` as computed from the float
     expressions — parameters here) -/
-def taskShuffle (parts : List (List Row)) (nOut k stages : Nat) : List (List Row) :=
+def taskShuffle (parts : List (List (Nat × α))) (nOut k stages : Nat) : List (List (Nat × α)) :=
   let nIn := parts.length
   let staged := (List.range stages).foldl (fun ps s => stageStep k stages s nIn ps) parts
   if nOut = nIn then staged.take nOut
